@@ -50,6 +50,13 @@ def lists(variant):
         return V(vs, cw)
 
     L_ = lambda n, cw=False: Lf(n, variant, cw)  # noqa: E731
+
+    def sq(x, y, cw=False, side=5):
+        vs = [(x, y), (x + side, y), (x + side, y + side), (x, y + side)]
+        if fl:
+            vs = [(0.25 * a + 0.1, 0.25 * b + 0.1) for a, b in vs]
+        return V(vs, cw)
+
     return {
         "C:hollow1": ("C", [L_("big"), L_("inner", True)], ["-", L_("big"), L_("inner")]),
         "C:hollow2": ("C", [L_("big"), L_("inner", True), L_("notch", True)], ["-", ["-", L_("big"), L_("inner")], L_("notch")]),
@@ -62,6 +69,11 @@ def lists(variant):
         "D:island-in-hole": ("D", [["C!", [L_("big"), L_("sqA", True)]], L_("inner")], ["|", ["-", L_("big"), L_("sqA")], L_("inner")]),
         "D:unbounded-member": ("D", [L_("big", True), L_("inner"), L_("notch")], ["~", ["-", ["-", L_("big"), L_("inner")], L_("notch")]]),
         "D:with-empty": ("D", [L_("inner"), ["E"], L_("far"), ["E"]], ["|", L_("inner"), L_("far")]),
+        # congruent members: equal areas and lengths, so the stored order is the input order
+        "D:three-equal": ("D", [sq(-30, 0), sq(0, 0), sq(30, 1)], ["|", ["|", sq(-30, 0), sq(0, 0)], sq(30, 1)]),
+        "D:four-equal": ("D", [sq(-30, 0), sq(0, 0), sq(30, 1), sq(0, 40)], ["|", ["|", sq(-30, 0), sq(0, 0)], ["|", sq(30, 1), sq(0, 40)]]),
+        "C:three-equal-holes": ("C", [L_("big"), sq(-3, 0, True), sq(6, 8, True), sq(14, -3, True)], ["-", ["-", ["-", L_("big"), sq(-3, 0)], sq(6, 8)], sq(14, -3)]),
+        "D:two-equal-rings": ("D", [["C!", [sq(-30, 0, False, 10), sq(-27, 3, True, 4)]], ["C!", [sq(30, 0, False, 10), sq(33, 3, True, 4)]]], None),
         "D:single": ("D", [L_("triA")], L_("triA")),
         "D:single+empty": ("D", [["E"], L_("triA")], L_("triA")),
         "D:empty-list": ("D", [], ["E"]),
@@ -127,7 +139,8 @@ def run_case(spec):
     nontrivial = []
     perms = list(permutations(range(len(members))))
     if "perm" in spec:
-        perms = [tuple(spec["perm"])]
+        # replay: the first permutation (reference for the order-independence oracle) and the failing one
+        perms = [perms[0]] + ([tuple(spec["perm"])] if tuple(spec["perm"]) != perms[0] else [])
     # reference region
     regs = [member_region(m) for m in members]
     regs = [r for r in regs if not (r.kind == "empty")] if kind == "D" else regs
